@@ -1,3 +1,5 @@
+import LoraVerif.Gen.UplinkFn
+import LoraVerif.Props.TieA.Tactics
 import LoraVerif.Model.Mac
 import LoraVerif.Gen.CmdTables
 import LoraVerif.Gen.UplinkStatic
@@ -8,9 +10,10 @@ import LoraVerif.Gen.UplinkStatic
 `FOPTS_MAX_LEN` limit of the answer queue, the set of answers that are repeated until the next
 downlink and the 6-bit margin of DevStatusAns.  Each is proved equal, for all arguments, to what
 `tools/translate` regenerates from the current source: the `#[cmd(cid, len)]` tables
-(`Gen/CmdTables.lean`), the guard of `Uplink::add_mac_command`, the `matches!` filter of
+(`Gen/CmdTables.lean`), the whole of `Uplink::add_mac_command` (`Gen/UplinkFn.lean`, builder L), the `matches!` filter of
 `Uplink::clear_mac_commands` and `DevStatusAnsCreator::set_margin` (`Gen/UplinkStatic.lean`).
 -/
+set_option linter.unusedSimpArgs false
 namespace C08
 open Model
 
@@ -52,35 +55,13 @@ theorem tieA_isSticky (cid : Nat) : isSticky cid = retainedCids.contains cid := 
 
 example : isSticky 5 = true ∧ isSticky 3 = false := by decide
 
-/-- the guard of `add_mac_command` (`pending.len() + payload_len < FOPTS_MAX_LEN`, `usize`
-arithmetic; the hypothesis excludes only a `usize` overflow no list length can cause) -/
-theorem tieA_queueLimit (p q : Nat) (h : p + q ≤ 18446744073709551615) :
-    Gen.UplinkStatic.Uplink.add_mac_command.fits p q = some (decide (p + q < 15)) := by
-  have hck : Rt.ck .usize ((p : Int) + (q : Int)) = some ((p : Int) + (q : Int)) :=
-    Rt.ck_eq_some (by constructor <;> simp [Rt.ITy.lo, Rt.ITy.hi, Rt.ITy.signed, Rt.ITy.bits] <;> omega)
-  simp only [Gen.UplinkStatic.Uplink.add_mac_command.fits, hck, Gen.UplinkStatic.FOPTS_MAX_LEN]
-  show some (decide ((p : Int) + (q : Int) < 15)) = _
-  congr 1
-  rw [Bool.eq_iff_iff]; simp only [decide_eq_true_eq]; omega
-
-/-- `Uplink::add_mac_command` as modelled: appended iff the generated guard holds -/
-theorem tieA_addMacCommand (pending : List Nat) (cid : Nat) (payload : List Nat)
-    (h : pending.length + payload.length ≤ 18446744073709551615) :
-    addMacCommand pending cid payload =
-      if Gen.UplinkStatic.Uplink.add_mac_command.fits pending.length payload.length = some true
-      then pending ++ cid :: payload else pending := by
-  rw [tieA_queueLimit _ _ h]
-  unfold addMacCommand
-  by_cases hc : pending.length + payload.length < 15 <;> simp [hc]
-
-/-- `push_answer` as modelled (`MacCtx.push`): same guard -/
-theorem tieA_push (c : MacCtx) (cid : Nat) (payload : List Nat) (hf : c.full = false)
-    (h : c.pending.length + payload.length ≤ 18446744073709551615) :
-    c.push cid payload =
-      if Gen.UplinkStatic.Uplink.add_mac_command.fits c.pending.length payload.length = some true
-      then { c with pending := c.pending ++ cid :: payload } else { c with full := true } := by
-  rw [tieA_queueLimit _ _ h]
-  unfold MacCtx.push
+/-- `push_answer` as modelled (`MacCtx.push`): while no answer of this downlink has been dropped it
+queues exactly as `addMacCommand` (= `Uplink::add_mac_command`, `tieA_add_mac_command` below) and
+raises `full` exactly when that refuses -/
+theorem tieA_push (c : MacCtx) (cid : Nat) (payload : List Nat) (hf : c.full = false) :
+    (c.push cid payload).pending = addMacCommand c.pending cid payload ∧
+    (c.push cid payload).full = !decide (c.pending.length + payload.length < 15) := by
+  unfold MacCtx.push addMacCommand
   by_cases hc : c.pending.length + payload.length < 15 <;> simp [hc, hf]
 
 example : addMacCommand (List.replicate 13 0) 6 [255, 0] = List.replicate 13 0 := by decide
@@ -107,6 +88,74 @@ example : devStatusMargin (-5) = 59 ∧ devStatusMargin 40 = 0 := by decide
 #print axioms tieA_uplinkCmdLen
 #print axioms tieA_downlinkCmdLen
 #print axioms tieA_isSticky
-#print axioms tieA_queueLimit
+#print axioms tieA_push
 #print axioms tieA_devStatusMargin
+
+/-! ## builder L — whole methods of `Uplink` (state-passing translation, `Gen/UplinkFn.lean`)
+
+`heapless::Vec<u8, FOPTS_MAX_LEN>` is a list with a capacity (`Rt.hvPush` / `Rt.hvExtend`: `push`
+answers `Err` when full, `extend_from_slice(..).unwrap()` panics when the slice does not fit); the
+`M: SerializableMacCommand` argument is the triple of what the method observes of it. -/
+
+/-- the byte list a generated `heapless::Vec<u8, _>` stands for -/
+def natsOf (l : List Int) : List Nat := l.map Int.toNat
+
+/-- `Uplink::add_mac_command` as the current source has it never panics and is the model's
+`addMacCommand`: the answer is queued (CID, then payload) iff queue + payload stay below 15 bytes,
+otherwise the queue is untouched and `false` is returned; the owed-ACK flag is not touched.
+(`hlen`: the trait's `payload_len()` is the length of `payload_bytes()`, as the derive macro
+generates it; `h` excludes only a `usize` overflow no list length can cause.) -/
+theorem tieA_add_mac_command (u : Gen.UplinkFn.Uplink) (cmd : Gen.UplinkFn.SerializableMacCommand)
+    (hlen : cmd.payload_len = cmd.payload_bytes.length)
+    (h : u.pending.length + cmd.payload_bytes.length ≤ 18446744073709551615) :
+    (Gen.UplinkFn.Uplink.add_mac_command u cmd).map (fun o => (o.1, natsOf o.2.pending, o.2.confirmed))
+      = some (decide (u.pending.length + cmd.payload_bytes.length < 15),
+              addMacCommand (natsOf u.pending) cmd.cid.toNat (natsOf cmd.payload_bytes), u.confirmed) := by
+  obtain ⟨pend, conf⟩ := u
+  obtain ⟨cid, pb, pl⟩ := cmd
+  simp only at hlen h
+  subst hlen
+  have hof : ∀ n : Nat, Int.ofNat n = (n : Int) := fun _ => rfl
+  have hcap : Gen.UplinkFn.FOPTS_MAX_LEN = 15 := rfl
+  unfold Gen.UplinkFn.Uplink.add_mac_command
+  gen_unfold_helpers_UplinkFn
+  simp only [hof, hcap, addMacCommand, natsOf, List.length_map, Rt.hvPush, Rt.hvPushOk, Rt.hvExtend, Rt.hvExtendOk,
+    List.length_append, List.length_singleton, List.length_cons, List.length_nil]
+  have hl1 : ((pend ++ [cid]).length : Int) = (pend.length : Int) + 1 := by
+    simp only [List.length_append, List.length_singleton]; omega
+  by_cases hc : pend.length + pb.length < 15
+  · tie_eval
+    simp only [List.map_append, List.map_cons, List.map_nil, List.append_assoc, List.singleton_append, List.cons_append, List.nil_append]
+  · tie_eval
+
+example : (Gen.UplinkFn.Uplink.add_mac_command ⟨[3, 7], true⟩ ⟨6, [255, 10], 2⟩).map (fun o => (o.1, o.2.pending))
+    = some (true, [3, 7, 6, 255, 10]) := by decide
+example : (Gen.UplinkFn.Uplink.add_mac_command ⟨List.replicate 13 0, false⟩ ⟨6, [255, 10], 2⟩).map (fun o => (o.1, o.2.pending.length))
+    = some (false, 13) := by decide
+
+/-- `set_downlink_confirmation` / `clear_downlink_confirmation` / `confirms_downlink` /
+`mac_commands`: the model's `ackOwed := true` (`sessionHandleRx`), `ackOwed := false` and the reads
+`s.ackOwed`, `s.pending` (`prepareBuffer`); none of them touches the other field -/
+theorem tieA_downlink_confirmation (u : Gen.UplinkFn.Uplink) :
+    Gen.UplinkFn.Uplink.set_downlink_confirmation u = { u with confirmed := true } ∧
+    Gen.UplinkFn.Uplink.clear_downlink_confirmation u = { u with confirmed := false } ∧
+    Gen.UplinkFn.Uplink.confirms_downlink u = u.confirmed ∧
+    Gen.UplinkFn.Uplink.mac_commands u = u.pending := by
+  refine ⟨?_, ?_, ?_, ?_⟩ <;>
+    (first | unfold Gen.UplinkFn.Uplink.set_downlink_confirmation | unfold Gen.UplinkFn.Uplink.clear_downlink_confirmation
+           | unfold Gen.UplinkFn.Uplink.confirms_downlink | unfold Gen.UplinkFn.Uplink.mac_commands) <;>
+    gen_unfold_helpers_UplinkFn <;> (try rfl)
+
+/-- `clear_mac_commands`: with `retain_acks == false` the queue is emptied (the model's
+`pending := []` on an accepted Class A downlink); with `true` it is REPLACED by what the iterator
+pipeline (parse → `matches!` filter → re-serialise; uninterpreted here, its variant list is
+`tieA_isSticky`) yields from the old queue and an empty accumulator; the owed-ACK flag is untouched -/
+theorem tieA_clear_mac_commands (u : Gen.UplinkFn.Uplink) :
+    Gen.UplinkFn.Uplink.clear_mac_commands u false = { u with pending := [] } ∧
+    Gen.UplinkFn.Uplink.clear_mac_commands u true = { u with pending := Gen.UplinkFn.retained_pipeline u.pending [] } := by
+  constructor <;> unfold Gen.UplinkFn.Uplink.clear_mac_commands <;> gen_unfold_helpers_UplinkFn <;> tie_eval
+
+#print axioms tieA_add_mac_command
+#print axioms tieA_downlink_confirmation
+#print axioms tieA_clear_mac_commands
 end C08
